@@ -1,0 +1,301 @@
+//go:build verif
+
+// Contracts for govc (/verif): C06 transaction encoding is canonical and its hash is content-addressed. Comment-only file.
+// Reuses DecOK/Pos/Len/Rest and the contracts of Read, ReadUint64, ReadUint16, ReadInt from zz_contracts_c07_verif.go.
+
+package common
+
+// ───────────── DecodedTx: what DecodeTransaction establishes of an accepted transaction ─────────────
+
+//@ spec IntegerEnc(x Integer) bool = val(x) >= 0 && bytelen(val(x)) <= MaximumEncodingInt
+//@ spec NilIfEmpty(b []byte) bool = len(b) == 0 ==> b == nil
+//@ spec DepositOK(d *DepositData) bool = len(d.AssetKey) <= MaximumEncodingInt && len(d.Transaction) <= MaximumEncodingInt && IntegerEnc(d.Amount)
+//@ spec MintOK(m *MintData) bool = len(m.Group) <= MaximumEncodingInt && IntegerEnc(m.Amount)
+//@ spec InputOK(in *Input) bool = in != nil && in.Index <= InputIndexLimit && len(in.Genesis) <= MaximumEncodingInt && NilIfEmpty(in.Genesis) &&
+//@       (in.Deposit != nil ==> DepositOK(in.Deposit)) && (in.Mint != nil ==> MintOK(in.Mint))
+//@ spec WithdrawalOK(w *WithdrawalData) bool = len(w.Address) <= MaximumEncodingInt && len(w.Tag) <= MaximumEncodingInt
+//@ spec KeysOK(ks []*crypto.Key) bool = len(ks) <= SliceCountLimit && forall k int :: 0 <= k && k < len(ks) ==> ks[k] != nil
+//@ spec OutputOK(o *Output) bool = o != nil && IntegerEnc(o.Amount) && KeysOK(o.Keys) && len(o.Script) <= MaximumEncodingInt && NilIfEmpty(o.Script) &&
+//@       (o.Withdrawal != nil ==> WithdrawalOK(o.Withdrawal))
+//@ spec SigMapOK(sm map[uint16]*crypto.Signature) bool = sm != nil && len(sm) <= MaximumEncodingInt && forall k uint16 :: has(sm, k) ==> sm[k] != nil
+//@ spec SignersOK(s []int) bool = len(s) <= MaximumEncodingInt &&
+//@       (forall i int :: 0 <= i && i < len(s) ==> 0 <= s[i] && s[i] <= MaximumEncodingInt) &&
+//@       (forall i, j int :: 0 <= i && i < j && j < len(s) ==> s[i] < s[j])
+//@ -- TxPayloadOK: the hashed part (Transaction); DecodedTx adds the authorisation part (signature maps / aggregated signature).
+//@ spec TxPayloadOK(tx *Transaction) bool = tx != nil && tx.Version == TxVersionHashSignature &&
+//@       len(tx.Inputs) <= SliceCountLimit && (forall i int :: 0 <= i && i < len(tx.Inputs) ==> InputOK(tx.Inputs[i])) &&
+//@       len(tx.Outputs) <= SliceCountLimit && (forall i int :: 0 <= i && i < len(tx.Outputs) ==> OutputOK(tx.Outputs[i])) &&
+//@       len(tx.References) <= SliceCountLimit && (len(tx.References) == 0 ==> tx.References == nil) &&
+//@       len(tx.Extra) <= ExtraSizeStorageCapacity && NilIfEmpty(tx.Extra)
+//@ spec DecodedTx(tx *SignedTransaction) bool = tx != nil && TxPayloadOK(&tx.Transaction) &&
+//@       (tx.AggregatedSignature != nil ==> tx.SignaturesMap == nil && SignersOK(tx.AggregatedSignature.Signers)) &&
+//@       len(tx.SignaturesMap) <= SliceCountLimit && (forall i int :: 0 <= i && i < len(tx.SignaturesMap) ==> SigMapOK(tx.SignaturesMap[i]))
+
+// ───────────── decoding.go: Read* helpers ─────────────
+
+//@ func (dec *Decoder) ReadUint32
+//@   property C06
+//@   requires DecOK(dec)
+//@   modifies *dec.buf
+//@   ensures [len] Len(dec) == old(Len(dec)) && Pos(dec) <= Len(dec)
+//@   ensures [ok] err == nil ==> Pos(dec) == old(Pos(dec)) + 4
+
+//@ func (dec *Decoder) ReadBytes
+//@   property C06
+//@   requires DecOK(dec)
+//@   modifies *dec.buf
+//@   ensures [len] Len(dec) == old(Len(dec)) && Pos(dec) <= Len(dec)
+//@   ensures [ok] err == nil ==> Pos(dec) == old(Pos(dec)) + 2 + len(result0) && len(result0) <= MaximumEncodingInt && NilIfEmpty(result0)
+
+//@ func (dec *Decoder) ReadMagic
+//@   property C06
+//@   requires DecOK(dec)
+//@   modifies *dec.buf
+//@   ensures [len] Len(dec) == old(Len(dec)) && Pos(dec) <= Len(dec)
+//@   ensures [ok] err == nil ==> Pos(dec) == old(Pos(dec)) + 2
+
+//@ func (dec *Decoder) ReadInteger
+//@   property C06
+//@   requires DecOK(dec)
+//@   modifies *dec.buf
+//@   ensures [len] Len(dec) == old(Len(dec)) && Pos(dec) <= Len(dec)
+//@   ensures [ok] err == nil ==> IntegerEnc(result0)
+
+//@ func (dec *Decoder) ReadInput
+//@   property C06
+//@   requires DecOK(dec)
+//@   modifies *dec.buf
+//@   ensures [len] Len(dec) == old(Len(dec)) && Pos(dec) <= Len(dec)
+//@   ensures [ok] err == nil ==> InputOK(result0) && fresh(result0)
+
+//@ func (dec *Decoder) ReadOutput
+//@   property C06
+//@   requires DecOK(dec)
+//@   modifies *dec.buf
+//@   ensures [len] Len(dec) == old(Len(dec)) && Pos(dec) <= Len(dec)
+//@   ensures [ok] err == nil ==> OutputOK(result0) && fresh(result0)
+//@   loop 0 invariant DecOK(dec) && Len(dec) == old(Len(dec)) && o != nil && len(o.Keys) == kc && IntegerEnc(o.Amount)
+//@   loop 0 invariant forall j int :: 0 <= j && j <= rangeindex ==> o.Keys[j] != nil
+
+//@ func (dec *Decoder) ReadSignatures
+//@   property C06
+//@   requires DecOK(dec)
+//@   modifies *dec.buf
+//@   ensures [len] Len(dec) == old(Len(dec)) && Pos(dec) <= Len(dec)
+//@   ensures [ok] err == nil ==> SigMapOK(result0) && fresh(result0)
+//@   loop 0 invariant DecOK(dec) && Len(dec) == old(Len(dec)) && sm != nil && rangeint_iter < sc
+//@   loop 0 invariant forall k uint16 :: has(sm, k) ==> sm[k] != nil
+
+//@ func validateAggregatedSigners
+//@   property C06, C05
+//@   modifies nothing
+//@   ensures [iff] result == nil <==> SignersOK(signers)
+//@   ensures [c05-range] result == nil ==> forall i int :: 0 <= i && i < len(signers) ==> 0 <= signers[i] && signers[i] <= MaximumEncodingInt
+//@   loop 0 invariant (rangeindex == 0 - 1 ==> prev == 0 - 1) && (rangeindex >= 0 ==> prev == signers[rangeindex])
+//@   loop 0 invariant forall i int :: 0 <= i && i <= rangeindex ==> 0 <= signers[i] && signers[i] <= MaximumEncodingInt
+//@   loop 0 invariant forall i, j int :: 0 <= i && i < j && j <= rangeindex ==> signers[i] < signers[j]
+
+//@ func (dec *Decoder) ReadAggregatedSignature
+//@   property C06
+//@   requires DecOK(dec)
+//@   modifies *dec.buf
+//@   ensures [len] Len(dec) == old(Len(dec)) && Pos(dec) <= Len(dec)
+//@   ensures [ok] err == nil ==> result0 != nil && SignersOK(result0.Signers) && fresh(result0)
+//@   loop 0 invariant DecOK(dec) && Len(dec) == old(Len(dec)) && Pos(dec) <= Len(dec) && js != nil && fresh(js) && (cap(js.Signers) == 0 || fresh(js.Signers))
+//@   loop 1 invariant DecOK(dec) && Len(dec) == old(Len(dec)) && Pos(dec) <= Len(dec) && js != nil && fresh(js) && (cap(js.Signers) == 0 || fresh(js.Signers))
+//@   loop 2 invariant DecOK(dec) && Len(dec) == old(Len(dec)) && Pos(dec) <= Len(dec) && js != nil && fresh(js) && (cap(js.Signers) == 0 || fresh(js.Signers))
+
+//@ -- magic and null are initialised from two-element literals and never reassigned: their capacity is their length, so
+//@ -- append(magic, …) always reallocates and never writes behind them.
+//@ axiom len(magic) == 2 && cap(magic) == 2 && len(null) == 2 && cap(null) == 2
+
+//@ func checkTxVersion
+//@   property C06
+//@   modifies nothing
+//@   ensures result == 0 || result == TxVersionHashSignature
+//@   loop 0 invariant slicelit[0] == TxVersionHashSignature
+
+// ───────────── decoding.go: DecodeTransaction ─────────────
+
+//@ spec TxHead(dec *Decoder, tx *SignedTransaction) bool = DecOK(dec) && Pos(dec) <= Len(dec) && tx != nil && tx.Version == TxVersionHashSignature
+//@ spec InputsDone(tx *SignedTransaction) bool = len(tx.Inputs) <= SliceCountLimit && forall i int :: 0 <= i && i < len(tx.Inputs) ==> InputOK(tx.Inputs[i])
+//@ spec OutputsDone(tx *SignedTransaction) bool = len(tx.Outputs) <= SliceCountLimit && forall i int :: 0 <= i && i < len(tx.Outputs) ==> OutputOK(tx.Outputs[i])
+//@ spec RefsDone(tx *SignedTransaction) bool = len(tx.References) <= SliceCountLimit && (len(tx.References) == 0 ==> tx.References == nil)
+//@ spec ExtraDone(tx *SignedTransaction) bool = len(tx.Extra) <= ExtraSizeStorageCapacity && NilIfEmpty(tx.Extra)
+//@ spec SigsZero(tx *SignedTransaction) bool = tx.AggregatedSignature == nil && tx.SignaturesMap == nil
+
+//@ -- Root of (a)/(d). requires: DecOK is established by NewDecoder (dec.buf = bytes.NewReader(b), non-nil); see unmarshalVersionedTransaction below.
+//@ func (dec *Decoder) DecodeTransaction
+//@   property C06
+//@   requires DecOK(dec)
+//@   modifies *dec.buf
+//@   ensures [decoded] err == nil ==> DecodedTx(result0) && fresh(result0)
+//@   ensures [consumed] err == nil ==> Pos(dec) == Len(dec)
+//@   ensures [len] Len(dec) == old(Len(dec))
+//@   loop 0 invariant TxHead(dec, tx) && Len(dec) == old(Len(dec)) && len(tx.Inputs) == il && il <= SliceCountLimit && tx.References == nil && tx.Extra == nil && SigsZero(tx)
+//@   loop 0 invariant forall k int :: 0 <= k && k <= rangeindex ==> InputOK(tx.Inputs[k])
+//@   loop 1 invariant TxHead(dec, tx) && Len(dec) == old(Len(dec)) && InputsDone(tx) && len(tx.Outputs) == ol && ol <= SliceCountLimit && tx.References == nil && tx.Extra == nil && SigsZero(tx)
+//@   loop 1 invariant forall k int :: 0 <= k && k <= rangeindex ==> OutputOK(tx.Outputs[k])
+//@   loop 2 invariant TxHead(dec, tx) && Len(dec) == old(Len(dec)) && InputsDone(tx) && OutputsDone(tx) && len(tx.References) == rl && 0 < rl && rl <= SliceCountLimit && tx.Extra == nil && SigsZero(tx)
+//@   loop 3 invariant TxHead(dec, tx) && Len(dec) == old(Len(dec)) && InputsDone(tx) && OutputsDone(tx) && RefsDone(tx) && ExtraDone(tx) && tx.AggregatedSignature == nil && len(tx.SignaturesMap) <= SliceCountLimit
+//@   loop 3 invariant forall k int :: 0 <= k && k <= rangeindex ==> SigMapOK(tx.SignaturesMap[k])
+
+// ───────────── encoding.go: the encoder never panics on a DecodedTx value ─────────────
+// Frame of every encoder method: the cell enc.buf and the bytes of its backing array (`enc.buf[*]`: in-place appends write beyond len).
+
+//@ func (enc *Encoder) Write
+//@   property C06, C08
+//@   requires enc != nil
+//@   modifies enc.buf, enc.buf[*]
+//@   ensures [ownbuf] arr(enc.buf) == old(arr(enc.buf)) || fresh(enc.buf)
+//@   ensures len(enc.buf) == old(len(enc.buf)) + len(b)
+
+//@ func (enc *Encoder) WriteByte
+//@   property C06
+//@   requires enc != nil
+//@   modifies enc.buf, enc.buf[*]
+//@   ensures [ownbuf] arr(enc.buf) == old(arr(enc.buf)) || fresh(enc.buf)
+//@   ensures len(enc.buf) == old(len(enc.buf)) + 1 && result == nil
+
+//@ func (enc *Encoder) WriteUint16
+//@   property C06
+//@   requires enc != nil
+//@   modifies enc.buf, enc.buf[*]
+//@   ensures [ownbuf] arr(enc.buf) == old(arr(enc.buf)) || fresh(enc.buf)
+//@   ensures len(enc.buf) == old(len(enc.buf)) + 2
+
+//@ func (enc *Encoder) WriteInt
+//@   property C06, C08
+//@   requires enc != nil
+//@   panics when d > MaximumEncodingInt
+//@   modifies enc.buf, enc.buf[*]
+//@   ensures [ownbuf] arr(enc.buf) == old(arr(enc.buf)) || fresh(enc.buf)
+//@   ensures len(enc.buf) == old(len(enc.buf)) + 2
+
+//@ func (enc *Encoder) WriteUint32
+//@   property C06
+//@   requires enc != nil
+//@   modifies enc.buf, enc.buf[*]
+//@   ensures [ownbuf] arr(enc.buf) == old(arr(enc.buf)) || fresh(enc.buf)
+//@   ensures len(enc.buf) == old(len(enc.buf)) + 4
+
+//@ func (enc *Encoder) WriteUint64
+//@   property C06, C08
+//@   requires enc != nil
+//@   modifies enc.buf, enc.buf[*]
+//@   ensures [ownbuf] arr(enc.buf) == old(arr(enc.buf)) || fresh(enc.buf)
+//@   ensures len(enc.buf) == old(len(enc.buf)) + 8
+
+//@ func (enc *Encoder) WriteInteger
+//@   property C06
+//@   requires enc != nil && IntegerEnc(d)
+//@   modifies enc.buf, enc.buf[*]
+//@   ensures [ownbuf] arr(enc.buf) == old(arr(enc.buf)) || fresh(enc.buf)
+//@   ensures len(enc.buf) == old(len(enc.buf)) + 2 + bytelen(val(d))
+
+//@ func (enc *Encoder) EncodeInput
+//@   property C06
+//@   requires enc != nil && InputOK(in)
+//@   modifies enc.buf, enc.buf[*]
+//@   ensures [ownbuf] arr(enc.buf) == old(arr(enc.buf)) || fresh(enc.buf)
+
+//@ func (enc *Encoder) EncodeOutput
+//@   property C06
+//@   requires enc != nil && OutputOK(o)
+//@   modifies enc.buf, enc.buf[*]
+//@   ensures [ownbuf] arr(enc.buf) == old(arr(enc.buf)) || fresh(enc.buf)
+//@   loop 0 invariant enc != nil && OutputOK(o) && (arr(enc.buf) == old(arr(enc.buf)) || fresh(enc.buf))
+
+//@ -- EncodeSignatures is NOT verified (assumption): its body needs "a range over a map runs len(m) times" (index ss[off]) and
+//@ -- sort.Slice over a slice of structs, both outside the engine's model. Its precondition is discharged at the call site.
+//@ assume func (enc *Encoder) EncodeSignatures
+//@   requires enc != nil && SigMapOK(sm)
+//@   modifies enc.buf, enc.buf[*]
+//@   ensures [ownbuf] arr(enc.buf) == old(arr(enc.buf)) || fresh(enc.buf)
+
+//@ func (enc *Encoder) EncodeAggregatedSignature
+//@   property C06
+//@   requires enc != nil && js != nil && SignersOK(js.Signers)
+//@   modifies enc.buf, enc.buf[*]
+//@   ensures [ownbuf] arr(enc.buf) == old(arr(enc.buf)) || fresh(enc.buf)
+//@   loop 0 invariant enc != nil && js != nil && SignersOK(js.Signers) && (arr(enc.buf) == old(arr(enc.buf)) || fresh(enc.buf))
+//@   loop 1 invariant enc != nil && js != nil && SignersOK(js.Signers) && len(js.Signers) > 0 && len(masks) == js.Signers[len(js.Signers)-1] / 8 + 1 && fresh(masks) && (arr(enc.buf) == old(arr(enc.buf)) || fresh(enc.buf))
+
+//@ func (enc *Encoder) EncodeTransaction
+//@   property C06
+//@   requires enc != nil && DecodedTx(signed)
+//@   modifies enc.buf, enc.buf[*]
+//@   ensures [ownbuf] arr(enc.buf) == old(arr(enc.buf)) || fresh(enc.buf)
+//@   ensures result == enc.buf
+//@   loop 0 invariant enc != nil && DecodedTx(signed) && (arr(enc.buf) == old(arr(enc.buf)) || fresh(enc.buf))
+//@   loop 1 invariant enc != nil && DecodedTx(signed) && (arr(enc.buf) == old(arr(enc.buf)) || fresh(enc.buf))
+//@   loop 2 invariant enc != nil && DecodedTx(signed) && (arr(enc.buf) == old(arr(enc.buf)) || fresh(enc.buf))
+//@   loop 3 invariant enc != nil && DecodedTx(signed) && (arr(enc.buf) == old(arr(enc.buf)) || fresh(enc.buf))
+
+// ───────────── version.go ─────────────
+
+//@ -- Allocates a private encoder; nothing visible to the caller is written. capacity is len(val) or 0 at the call sites.
+//@ func (ver *VersionedTransaction) marshalWithCapacity
+//@   property C06
+//@   requires ver != nil && capacity >= 0 && DecodedTx(&ver.SignedTransaction)
+//@   modifies nothing
+
+//@ func (ver *VersionedTransaction) marshal
+//@   property C06
+//@   requires ver != nil && DecodedTx(&ver.SignedTransaction)
+//@   modifies nothing
+
+//@ -- Root of (a),(b),(d): NO precondition - total on every byte string.
+//@ -- [canonical] is checked at every return: on the accepting path the bytes produced by ver.marshalWithCapacity(len(val)) for the
+//@ -- RETURNED ver equal val (between that call and the return there is only bytes.Equal, which writes nothing).
+//@ func unmarshalVersionedTransaction
+//@   property C06
+//@   modifies nothing
+//@   ensures [decoded] err == nil ==> result0 != nil && fresh(result0) && DecodedTx(&result0.SignedTransaction)
+//@   ensures [size] err == nil ==> len(val) <= config.TransactionMaximumSize
+//@   ensures [reject] err != nil ==> result0 == nil
+//@   hint return [canonical] err == nil ==> result0 == ver && bytes.Equal(canonical, val)
+
+//@ func UnmarshalVersionedTransaction
+//@   property C06
+//@   modifies nothing
+//@   ensures [decoded] err == nil ==> result0 != nil && fresh(result0) && DecodedTx(&result0.SignedTransaction)
+//@   ensures [size] err == nil ==> len(val) <= config.TransactionMaximumSize
+
+//@ -- (c) the hashed bytes are EncodeTransaction of a FRESH SignedTransaction that copies ver.Transaction and has no authorisation data.
+//@ func (ver *VersionedTransaction) payloadMarshal
+//@   property C06
+//@   requires ver != nil && TxPayloadOK(&ver.SignedTransaction.Transaction)
+//@   modifies nothing
+//@   hint after EncodeTransaction [nosigs] signed != nil && fresh(signed) && signed.SignaturesMap == nil && signed.AggregatedSignature == nil
+//@   hint after EncodeTransaction [payload] signed.Version == ver.Version && signed.Asset == ver.Asset && signed.Inputs == ver.Inputs && signed.Outputs == ver.Outputs &&
+//@       signed.References == ver.References && signed.Extra == ver.Extra
+
+//@ -- Marshal / PayloadMarshal contain a config.Debug self-check `unmarshal(own output) must succeed, else panic`.
+//@ -- That the self-check never fires is the encode->decode ROUND TRIP, which is NOT covered here (see report): hence `maypanic`.
+//@ -- Every other panic (encoder limits) is an obligation and is discharged from the precondition.
+//@ func (ver *VersionedTransaction) Marshal
+//@   property C06
+//@   requires ver != nil && DecodedTx(&ver.SignedTransaction)
+//@   maypanic
+//@   modifies nothing
+//@   -- C31's size abstraction: MLenOf(ver) names len(ver.Marshal()); with config.Debug == true (a constant of this tree) Marshal
+//@   -- re-decodes its output and panics when it exceeds config.TransactionMaximumSize. Assumed, not verified against the body.
+//@   assumes len(result) == MLenOf(ver) && 0 < len(result) && len(result) <= config.TransactionMaximumSize && fresh(result)
+
+//@ func (ver *VersionedTransaction) PayloadMarshal
+//@   property C06
+//@   requires ver != nil && TxPayloadOK(&ver.SignedTransaction.Transaction)
+//@   maypanic
+//@   modifies ver.pmbytes
+//@   ensures [cached] result == ver.pmbytes && (old(len(ver.pmbytes)) > 0 ==> result == old(ver.pmbytes))
+//@   ensures [auth-untouched] ver.SignaturesMap == old(ver.SignaturesMap) && ver.AggregatedSignature == old(ver.AggregatedSignature)
+//@   ensures [payload-untouched] TxPayloadOK(&ver.SignedTransaction.Transaction)
+
+//@ func (ver *VersionedTransaction) PayloadHash
+//@   property C06
+//@   requires ver != nil && TxPayloadOK(&ver.SignedTransaction.Transaction)
+//@   maypanic
+//@   modifies ver.pmbytes, ver.hash
+//@   ensures [cached] result == ver.hash && (old(ver.hash.HasValue()) ==> result == old(ver.hash) && ver.pmbytes == old(ver.pmbytes))
+//@   ensures [auth-untouched] ver.SignaturesMap == old(ver.SignaturesMap) && ver.AggregatedSignature == old(ver.AggregatedSignature)
